@@ -232,7 +232,10 @@ def build_pair(cfg: dict, store: Store, resume: bool = False):
     suites = [tls.CipherSuite[x] for x in cfg["suites"]] if cfg.get("suites") else None
     alpn_c = ["vf-a", "vf-b"] if cfg.get("alpn") else None
     alpn_s = ["vf-b", "vf-a"] if cfg.get("alpn") else None
-    c = tls.Context(is_client=True, cadata=P.ca_pem, server_name="localhost", alpn_protocols=alpn_c, cipher_suites=suites)
+    import ssl
+
+    c = tls.Context(is_client=True, cadata=P.ca_pem, server_name="localhost", alpn_protocols=alpn_c, cipher_suites=suites,
+                    verify_mode=ssl.CERT_NONE if cfg.get("client_cert_none") else None)
     c.handshake_extensions = [(tls.ExtensionType.QUIC_TRANSPORT_PARAMETERS, TP_CLIENT)]
     s = tls.Context(is_client=False, alpn_protocols=alpn_s, cipher_suites=suites, max_early_data=0xFFFFFFFF)
     s.handshake_extensions = [(tls.ExtensionType.QUIC_TRANSPORT_PARAMETERS, TP_SERVER)]
@@ -611,7 +614,10 @@ def rebind(msg: bytes, suite_name: str, psk: bytes) -> bytes:
 
 B_CERT_CASES = ["wrong-name", "expired", "not-yet", "self-signed", "untrusted-ca",
                 "untrusted-ca+root-in-chain", "untrusted-inter+root-in-chain", "untrusted-inter-in-chain"]
-B_SIG_CASES = ["cv-wrong-key", "cv-wrong-context", "cv-wrong-transcript", "empty-certificate-list-no-certificate-verify"]
+B_SIG_CASES = ["cv-wrong-key", "cv-wrong-context", "cv-wrong-transcript", "empty-certificate-list-no-certificate-verify",
+               # a client that switched chain / name validation off (verify_mode CERT_NONE, e.g. because it pins the
+               # certificate itself) is still owed the proof of possession of the presented certificate's key
+               "cv-wrong-key+client-cert-none", "cv-wrong-context+client-cert-none", "cv-wrong-transcript+client-cert-none"]
 B_PSK_CASES = ["psk-impostor-server", "psk-client-secret-unknown-to-server", "psk-unknown-ticket-then-bad-cert",
                "psk-claimed-without-secret:AES_128_GCM_SHA256", "psk-claimed-without-secret:AES_256_GCM_SHA384", "psk-claimed-without-secret:CHACHA20_POLY1305_SHA256"]
 
@@ -636,6 +642,10 @@ def b_run(case: str, kind: str, res, batch):
         res.count("b_tickets_issued")
     if case in B_CERT_CASES:
         cfg = dict(cfg, flavour=case)
+    if case.endswith("+client-cert-none"):
+        cfg = dict(cfg, client_cert_none=True)
+        case = case[: -len("+client-cert-none")]
+        res.count("b_client_cert_none_cases")
     cl, sv = build_pair(cfg, store, resume=resume)
     suite_name = None
     if resume:
@@ -763,7 +773,7 @@ def _claim_psk_without_secret(ctx, cipher_suite, input_buf, initial_buf, handsha
 def b_negauth_tls(batch, res):
     cases = batch.get("cases") or (
         B_CERT_CASES + B_SIG_CASES + B_PSK_CASES
-        + ["control-good", "control-proxy-identity", "control-psk", "control-psk-rebind-same-secret", "control-psk-unknown-ticket"]
+        + ["control-good", "control-good+client-cert-none", "control-proxy-identity", "control-psk", "control-psk-rebind-same-secret", "control-psk-unknown-ticket"]
     )
     kinds = batch.get("kinds") or KEY_TYPES
     for kind in kinds:
